@@ -8,11 +8,11 @@ WT=/tmp/val_${ID}_${X}
 export CARGO_TARGET_DIR=/tmp/val_target
 export CARGO_NET_OFFLINE=true
 git -C /repo worktree remove --force $WT >/dev/null 2>&1
-git -C /repo worktree add --detach $WT HEAD >/dev/null 2>&1 || { echo "{\"id\":\"$ID\",\"x\":\"$X\",\"error\":\"worktree\"}"; exit 1; }
+git -C /repo worktree add --detach $WT ${SEED_BASE:-HEAD} >/dev/null 2>&1 || { echo "{\"id\":\"$ID\",\"x\":\"$X\",\"error\":\"worktree\"}"; exit 1; }
 cd $WT
+suite_clean=$(cargo test --offline --no-fail-fast 2>&1 | grep -E "^test .* \.\.\. " | grep -v "(line " | sort | md5sum | cut -c1-12)
 cp $SRC/$X.demo.rs tests/demo_${ID}_${X}.rs
 demo_clean=$(cargo test --offline --test demo_${ID}_${X} 2>&1 | grep -E "^test result" | head -1)
-suite_clean=$(cargo test --offline --no-fail-fast 2>&1 | grep -E "^test .* \.\.\. " | grep -v "demo_\|(line " | sort | md5sum | cut -c1-12)
 if git apply --check $SRC/$X.patch.diff 2>/dev/null; then
   git apply $SRC/$X.patch.diff; applies=true
 else
@@ -20,6 +20,7 @@ else
 fi
 if $applies; then
   demo_mut=$(cargo test --offline --test demo_${ID}_${X} 2>&1 | grep -E "^test result|error\[|error:" | head -1)
+  rm -f tests/demo_${ID}_${X}.rs
   suite_mut=$(cargo test --offline --no-fail-fast 2>&1 | grep -E "^test .* \.\.\. " | grep -v "demo_\|(line " | sort | md5sum | cut -c1-12)
 else
   demo_mut="n/a"; suite_mut="n/a"
